@@ -10,16 +10,12 @@ import (
 	"os"
 
 	"verifharness/internal/child"
-	"verifharness/internal/refs"
 )
 
-var replayers = map[string]child.Handler{
-	"refs": refs.Replay,
-}
+// engines register themselves from reg_<engine>.go files
+var replayers = map[string]child.Handler{}
 
-var recorders = map[string]func(args []string) error{
-	"refs": refs.Record,
-}
+var recorders = map[string]func(args []string) error{}
 
 func main() {
 	if len(os.Args) < 3 {
